@@ -573,8 +573,13 @@ class Body:
             self._bl = {l["i"] for l in self.locals if l["ty"] == "bool"}
         return self._bl
 
-    def reach_avoiding_edges(self, edges, start=0):
+    def reach_avoiding_edges(self, edges, start=0, conds=()):
+        """blocks reachable from `start` on paths that use none of `edges`; constants, enum variants and -- for
+        `conds` = {(call block, truth)} -- booleans computed from the result of those calls are tracked along the
+        path, so that `let missing = !has(x); if missing { return }` avoids the path on which has(x) is true"""
         edges = set(edges)
+        conds = set(conds)
+        cond_calls = {c[0] for c in conds}
         bl = self._bool_locals()
         seen_states = set()
         seen = set()
@@ -632,7 +637,11 @@ class Body:
                 elif rv.k == "unop" and rv.j["op"] == "Not":
                     o = rv.ops[0]
                     if o.place is not None and not o.place.proj and o.place.local in e:
-                        v = not e[o.place.local]
+                        pv = e[o.place.local]
+                        if isinstance(pv, tuple):
+                            v = ("C", pv[1], not pv[2]) if pv[0] == "C" else None
+                        else:
+                            v = not pv
                 if v is None:
                     e.pop(l, None)
                 else:
@@ -640,11 +649,33 @@ class Body:
             t = blk.term
             if t.k == "call" and not t.dest.proj:
                 e.pop(t.dest.local, None)
+                if x in cond_calls:
+                    e[t.dest.local] = ("C", x, False)
             succs = self.succ(x)
             if t.k == "switch" and t.discr.place is not None and not t.discr.place.proj and t.discr.place.local in e:
                 ev = e[t.discr.place.local]
+                val = None
                 if isinstance(ev, tuple):
-                    val = ev[1] if ev[0] == "I" else None
+                    if ev[0] == "I":
+                        val = ev[1]
+                    elif ev[0] == "C":
+                        # the switch tests (the negation of) a tracked call result: drop the edges on which that
+                        # result has an avoided truth value
+                        zero = dict(t.targets).get(0)
+                        keep = []
+                        for y in succs:
+                            if y == zero and y != t.otherwise:
+                                truth = False
+                            elif y != zero:
+                                truth = True
+                            else:
+                                keep.append(y)
+                                continue
+                            if ev[2]:
+                                truth = not truth
+                            if (ev[1], truth) not in conds:
+                                keep.append(y)
+                        succs = keep
                 else:
                     val = 1 if ev else 0
                 if val is not None:
